@@ -14,6 +14,8 @@ val valid_types_for_is_greater : operand_type list
 
 val valid_types_for_negative : operand_type list
 
+val valid_types_for_offset : operand_type list
+
 val valid_types_for_pointer : operand_type list
 
 val binop_valid_types : binop -> operand_type list
